@@ -368,7 +368,11 @@ func runC12For(s *kernel.Sim, prop, cfg string) {
 			continue
 		case 1:
 			rq := kernel.Pick(t, rs, "custom-update")
-			rq.conf.Custom.UpdateTime = rq.conf.Custom.UpdateTime.Add(time.Minute)
+			// The profile's update time moves on, by a minute or by less
+			// than a second.
+			rq.conf.Custom.UpdateTime = rq.conf.Custom.UpdateTime.Add(kernel.Pick(t, []time.Duration{
+				time.Minute, time.Minute, 300 * time.Millisecond, time.Nanosecond,
+			}, "custom-update-step"))
 			rq.conf.Custom.Enabled = true
 			rq.conf.Custom.Rules = []filter.RuleText{
 				filter.RuleText(fmt.Sprintf("||custom-%s-%d.test^", rq.name, i)),
